@@ -266,7 +266,7 @@ Invariant (`PathInv`, by induction over the insertion order): every stored entry
 before it, and is either unconnected (sentinel) or points to `(begin, index of a connected entry of row begin)`. -/
 theorem lattice_index_in_range (add : Int → Int → Option Int) (conn : Nat → Nat → Int) (len : Nat)
     (hlen : 1 ≤ len ∧ len ≤ 65535) (nodes : List Vit.Node) (hnodes : ∀ n ∈ nodes, n.b < n.e ∧ n.e ≤ len)
-    (hrow : ∀ e, nodes.countP (fun n => n.e == e) ≤ 65535)
+    (hrow : ∀ e, nodes.countP (fun n => n.e == e) ≤ 4294967295)
     (rows : Rows) (ents : List Entry) (c : Int) (pe pi : Nat)
     (hb : buildAll add I32_MAX conn nodes (reset len) [] = .ok (rows, ents))
     (he : connectEos add I32_MAX conn rows len = .ok (c, pe, pi)) (t : List Nat) (ht : len ≤ nchars t) :
@@ -432,7 +432,7 @@ theorem tokenize_total_partial (v : SplitV) (lv : LenV) (cfg : Cfg) (orig : List
     (hbound : ∀ l0 l chars, startBuild orig = some l0 → rewriteInput lv cfg.inputPlugins l0 = .ok l →
       Wire.utf8Decode (textOf l) = some chars → chars.length ≤ 32767)
     (hrowsz : ∀ chars nodes, buildLattice cfg.providers cfg.lex (cfg.mkBuf chars) = .ok nodes →
-      ∀ e, (nodes.map toVit).countP (fun n => n.e == e) ≤ 65535)
+      ∀ e, (nodes.map toVit).countP (fun n => n.e == e) ≤ 4294967295)
     (hrew : ∀ path, NoPanic (cfg.rewrite path))
     (hsplit : v = .cur → ∀ text path path', cfg.rewrite path = .ok path' →
       NoPanic (splitPath .cur (b2c text) (c2b text) path'))
@@ -537,7 +537,7 @@ theorem tokenize_total_at_partial (v : SplitV) (lv : LenV) (cfg : Cfg) (orig : L
     (hconn : I16Conn cfg.conn)
     (hbound : ∀ chars, Reaches lv cfg orig chars → chars.length ≤ 32767)
     (hrowsz : ∀ chars nodes, Reaches lv cfg orig chars → buildLattice cfg.providers cfg.lex (cfg.mkBuf chars) = .ok nodes →
-      ∀ e, (nodes.map toVit).countP (fun n => n.e == e) ≤ 65535)
+      ∀ e, (nodes.map toVit).countP (fun n => n.e == e) ≤ 4294967295)
     (hrew : ∀ path, NoPanic (cfg.rewrite path))
     (hsplit : v = .cur → ∀ text path path', cfg.rewrite path = .ok path' →
       NoPanic (splitPath .cur (b2c text) (c2b text) path'))
@@ -724,7 +724,7 @@ theorem tokenize_total (lv : LenV) (cfg : Cfg) (orig : List Nat)
       Wire.utf8Decode (textOf l) ≠ none)
     (hbound : ∀ chars, Reaches lv cfg orig chars → chars.length ≤ 32767)
     (hrowsz : ∀ chars nodes, Reaches lv cfg orig chars → buildLattice cfg.providers cfg.lex (cfg.mkBuf chars) = .ok nodes →
-      ∀ e, (nodes.map toVit).countP (fun n => n.e == e) ≤ 65535)
+      ∀ e, (nodes.map toVit).countP (fun n => n.e == e) ≤ 4294967295)
     (hrew : ∀ path, NoPanic (cfg.rewrite path))
     (hkeep : ∀ (nb : Nat) path path', (∀ q ∈ path, q.eb ≤ nb) → cfg.rewrite path = .ok path' →
       ∀ p ∈ path', p.1.eb ≤ nb) :
@@ -860,7 +860,7 @@ theorem tokenize_total_compiled (lv : LenV) (cfg : Cfg) (orig : List Nat)
       Wire.utf8Decode (textOf l) ≠ none)
     (hbound : ∀ chars, Reaches lv cfg orig chars → chars.length ≤ 32767)
     (hrowsz : ∀ chars nodes, Reaches lv cfg orig chars → buildLattice cfg.providers cfg.lex (cfg.mkBuf chars) = .ok nodes →
-      ∀ e, (nodes.map toVit).countP (fun n => n.e == e) ≤ 65535)
+      ∀ e, (nodes.map toVit).countP (fun n => n.e == e) ≤ 4294967295)
     (hrew : ∀ path, NoPanic (cfg.rewrite path))
     (hkeep : ∀ (nb : Nat) path path', (∀ q ∈ path, q.eb ≤ nb) → cfg.rewrite path = .ok path' →
       ∀ p ∈ path', p.1.eb ≤ nb) :
@@ -886,7 +886,7 @@ theorem tokenize_total_no_plugins (lv : LenV) (cfg : Cfg) (orig : List Nat)
     (hbound : ∀ chars, Wire.utf8Decode orig = some chars → chars.length ≤ 32767)
     (hrowsz : ∀ chars nodes, Wire.utf8Decode orig = some chars →
       buildLattice cfg.providers cfg.lex (cfg.mkBuf chars) = .ok nodes →
-      ∀ e, (nodes.map toVit).countP (fun n => n.e == e) ≤ 65535) :
+      ∀ e, (nodes.map toVit).countP (fun n => n.e == e) ≤ 4294967295) :
     NoPanic (tokenize .d6fix lv cfg orig) := by
   have htext : ∀ l0 l, startBuild orig = some l0 → rewriteInput lv cfg.inputPlugins l0 = .ok l → textOf l = orig := by
     intro l0 l h0 h1
@@ -940,7 +940,7 @@ theorem tokenize_succeeds (lv : LenV) (cfg : Cfg) (orig : List Nat)
       Wire.utf8Decode (textOf l) ≠ none)
     (hbound : ∀ chars, Reaches lv cfg orig chars → chars.length ≤ 32767)
     (hrowsz : ∀ chars nodes, Reaches lv cfg orig chars → buildLattice cfg.providers cfg.lex (cfg.mkBuf chars) = .ok nodes →
-      ∀ e, (nodes.map toVit).countP (fun n => n.e == e) ≤ 65535)
+      ∀ e, (nodes.map toVit).countP (fun n => n.e == e) ≤ 4294967295)
     (hrewok : ∀ path, ∃ path', cfg.rewrite path = .ok path')
     (hkeep : ∀ (nb : Nat) path path', (∀ q ∈ path, q.eb ≤ nb) → cfg.rewrite path = .ok path' →
       ∀ p ∈ path', p.1.eb ≤ nb) :
@@ -993,7 +993,7 @@ theorem tokenize_succeeds_within_limits (lv : LenV) (cfg : Cfg) (orig : List Nat
     (hbound : ∀ chars, Wire.utf8Decode orig = some chars → chars.length ≤ 32767)
     (hrowsz : ∀ chars nodes, Wire.utf8Decode orig = some chars →
       buildLattice cfg.providers cfg.lex (cfg.mkBuf chars) = .ok nodes →
-      ∀ e, (nodes.map toVit).countP (fun n => n.e == e) ≤ 65535)
+      ∀ e, (nodes.map toVit).countP (fun n => n.e == e) ≤ 4294967295)
     (hrewok : ∀ path, ∃ path', cfg.rewrite path = .ok path')
     (hkeep : ∀ (nb : Nat) path path', (∀ q ∈ path, q.eb ≤ nb) → cfg.rewrite path = .ok path' →
       ∀ p ∈ path', p.1.eb ≤ nb) :
@@ -1049,7 +1049,7 @@ theorem morpheme_offsets_defined_partial (lv : LenV) (cfg : Cfg) (orig : List Na
     (hmk : ∀ chars, mkBufV rv bowFix tab chars = some (cfg.mkBuf chars))
     (hbound : ∀ chars, Reaches lv cfg orig chars → chars.length ≤ 32767)
     (hrowsz : ∀ chars nodes, Reaches lv cfg orig chars → buildLattice cfg.providers cfg.lex (cfg.mkBuf chars) = .ok nodes →
-      ∀ e, (nodes.map toVit).countP (fun n => n.e == e) ≤ 65535)
+      ∀ e, (nodes.map toVit).countP (fun n => n.e == e) ≤ 4294967295)
     (hkeepall : ∀ (t : List Nat) path path', (∀ q ∈ path, InText t q) → cfg.rewrite path = .ok path' →
       ∀ p ∈ path', InText t p.1)
     (r : Result) (h : tokenize .d6fix lv cfg orig = .ok r)
@@ -1182,7 +1182,7 @@ theorem pipe_configuration_total (lv : LenV) (orig : List Nat)
     (hbound : ∀ chars, Reaches lv (TotalIO.mkCfg plugins rv bowFix rs ps lex conn units) orig chars → chars.length ≤ 32767)
     (hrowsz : ∀ chars nodes, Reaches lv (TotalIO.mkCfg plugins rv bowFix rs ps lex conn units) orig chars →
       buildLattice ps lex (TotalIO.mkBufOf rv bowFix (CharCat.compile rs) chars) = .ok nodes →
-      ∀ e, (nodes.map toVit).countP (fun n => n.e == e) ≤ 65535) :
+      ∀ e, (nodes.map toVit).countP (fun n => n.e == e) ≤ 4294967295) :
     NoPanic (tokenize .d6fix lv (TotalIO.mkCfg plugins rv bowFix rs ps lex conn units) orig) := by
   have hbuild : (TotalIO.mkCfg plugins rv bowFix rs ps lex conn units).mkBuf = builtBuf rv bowFix (CharCat.compile rs) := by
     funext chars
@@ -1391,7 +1391,7 @@ theorem tokenize_total_path (lv : LenV) (cfg : Cfg) (orig : List Nat) (horig : B
     (hconn : I16Conn cfg.conn)
     (hbound : ∀ chars, Reaches lv cfg orig chars → chars.length ≤ 32767)
     (hrowsz : ∀ chars nodes, Reaches lv cfg orig chars → buildLattice cfg.providers cfg.lex (cfg.mkBuf chars) = .ok nodes →
-      ∀ e, (nodes.map toVit).countP (fun n => n.e == e) ≤ 65535)
+      ∀ e, (nodes.map toVit).countP (fun n => n.e == e) ≤ 4294967295)
     (hrew : ∀ (tb2c tc2b : List Nat) (nc nb : Nat) path, PathOk tb2c tc2b nc nb path →
       NoPanic (cfg.rewrite path) ∧
       ∀ path', cfg.rewrite path = .ok path' → PathOk tb2c tc2b nc nb (path'.map (·.1))) :
@@ -1559,7 +1559,7 @@ theorem tokenize_total_bundled (lv : LenV) (orig : List Nat) (horig : BoOf orig 
       chars.length ≤ 32767)
     (hrowsz : ∀ chars nodes, Reaches lv (bundledCfg plugins rv bowFix rs b bs lex conn cat P pls info units) orig chars →
       buildLattice ((b :: bs).map Bundled.prov) lex (TotalIO.mkBufOf rv bowFix (CharCat.compile rs) chars) = .ok nodes →
-      ∀ e, (nodes.map toVit).countP (fun n => n.e == e) ≤ 65535)
+      ∀ e, (nodes.map toVit).countP (fun n => n.e == e) ≤ 4294967295)
     (hidx : ∀ (tb2c tc2b : List Nat) (nc nb : Nat) path, PathOk tb2c tc2b nc nb path →
       Rewrite.rewriteAll .fix cat P pls (path.map info) ≠ .panic) :
     NoPanic (tokenize .d6fix lv (bundledCfg plugins rv bowFix rs b bs lex conn cat P pls info units) orig) := by
@@ -1615,7 +1615,7 @@ theorem morpheme_access_total (lv : LenV) (cfg : Cfg) (orig : List Nat) (horig :
     (rv : Variant) (bowFix : Bool) (tab : List (Nat × Nat))
     (hmk : ∀ chars, mkBufV rv bowFix tab chars = some (cfg.mkBuf chars))
     (hrowsz : ∀ chars nodes, Reaches lv cfg orig chars → buildLattice cfg.providers cfg.lex (cfg.mkBuf chars) = .ok nodes →
-      ∀ e, (nodes.map toVit).countP (fun n => n.e == e) ≤ 65535)
+      ∀ e, (nodes.map toVit).countP (fun n => n.e == e) ≤ 4294967295)
     (hrew : ∀ (tb2c tc2b : List Nat) (nc nb : Nat) path path', PathOk tb2c tc2b nc nb path → cfg.rewrite path = .ok path' →
       PathOk tb2c tc2b nc nb (path'.map (·.1)))
     (r : Result) (h : tokenize .d6fix lv cfg orig = .ok r) :
@@ -1648,7 +1648,7 @@ theorem pipe_morpheme_access_total (lv : LenV) (orig : List Nat) (horig : BoOf o
       Wire.utf8Decode (textOf l) = some chars → textOf l = TotalIO.encode chars)
     (hrowsz : ∀ chars nodes, Reaches lv (TotalIO.mkCfg plugins rv bowFix rs ps lex conn units) orig chars →
       buildLattice ps lex (TotalIO.mkBufOf rv bowFix (CharCat.compile rs) chars) = .ok nodes →
-      ∀ e, (nodes.map toVit).countP (fun n => n.e == e) ≤ 65535)
+      ∀ e, (nodes.map toVit).countP (fun n => n.e == e) ≤ 4294967295)
     (r : Result) (h : tokenize .d6fix lv (TotalIO.mkCfg plugins rv bowFix rs ps lex conn units) orig = .ok r) :
     ∀ m ∈ r.morphs, ∃ a, access orig r.tables m = .ok a ∧
       a.b ≤ a.e ∧ a.e ≤ orig.length ∧ a.sb = a.b ∧ a.se = a.e ∧
@@ -1737,7 +1737,104 @@ theorem pipe_configuration_total_capped (lv : LenV) (orig : List Nat)
     unfold TotalIO.mkBufOf; rw [mkBufV_compile_total rv bowFix rs chars]
   obtain ⟨hwf, _, hch⟩ := mkBufV_ok rv bowFix (CharCat.compile rs) chars _ (mkBufV_compile_total rv bowFix rs chars)
   rw [hb] at h
-  exact rows_from_row_cap ps lex _ hwf (by rw [hch]; exact hcap chars hr) nodes h e
+  exact Nat.le_trans (rows_from_row_cap ps lex _ hwf (by rw [hch]; exact hcap chars hr) nodes h e) (by decide)
+
+/-- **`hrowsz` for the `u32` row index (the tree since the repair 9fb3dd8), from the configuration alone.**  The back-pointer
+of a lattice node stores the index of the best previous node inside its row; `NodeIdx.index` was a `u16` in the pinned tree
+(`i as u16` wrapped in a row of more than 65536 candidates: `row_index_u16_wraps_counterexample`) and is a `u32` now
+(`Total.asU32` in `Total.connGo`).  A text the length guards admit has at most 65535 characters, so `rowCap ≤ 65537` keeps
+every row at or below 2^32 - 1 entries for EVERY text: the factor `|text|` of `rows_from_row_cap` is gone. -/
+theorem rows_from_row_cap_u32 (ps : List Provider) (lex : List Word) (buf : Buf) (hwf : buf.WF)
+    (hn : buf.chars.length ≤ 65535) (hcap : rowCap ps lex ≤ 65537) (nodes : List Oov.Node)
+    (h : buildLattice ps lex buf = .ok nodes) (e : Nat) :
+    (nodes.map toVit).countP (fun n => n.e == e) ≤ 4294967295 :=
+  rows_of_cap_u32 ps lex buf hwf hn hcap nodes h e
+
+/-- **the `u16` row index of the pinned tree wraps (kernel-checked on a small-width instance).**  `connGoW W` is
+`Total.connGo` with the index stored as `i % W`; `connGoW 4294967296` IS the model of the tree (`connGoW_u32`).  With width
+`W = 4` (standing for 65536) and a row of five connected entries of which the LAST is the cheapest, the loop stores the right
+minimum (10) with the index `4 % 4 = 0`: the back-pointer names entry 0 (total 50), a chain that is 40 dearer than the cost
+that was stored — `fill_top_path` follows it.  At full size (4 `unk.def` lines × a run of 16400 letters = 65600 grouped
+candidates in one row) the harness ran this on the real tokenizer: 16 tokens of cost -160 instead of 16400 tokens of cost
+-164000 on the pinned tree, the cheapest path on the repaired one (directed case `row-wrap`, C02/C03). -/
+def connGoW (W : Nat) (add : Int → Int → Option Int) (M : Int) (conn : Nat → Nat → Int) (n : Vit.Node) :
+    List Entry → Nat → Int × Nat × Nat → Option (Int × Nat × Nat)
+  | [], _, st => some st
+  | l :: rest, i, st =>
+    if l.total = M then connGoW W add M conn n rest (i + 1) st
+    else match add l.total (conn l.node.r n.l) with
+      | none => none
+      | some x => match add x n.c with
+        | none => none
+        | some nc =>
+          if nc < st.1 then connGoW W add M conn n rest (i + 1) (nc, asU16 n.b, i % W)
+          else connGoW W add M conn n rest (i + 1) st
+
+theorem connGoW_u32 (add : Int → Int → Option Int) (M : Int) (conn : Nat → Nat → Int) (n : Vit.Node) :
+    ∀ (row : List Entry) (i : Nat) (st : Int × Nat × Nat),
+      connGoW 4294967296 add M conn n row i st = connGo add M conn n row i st := by
+  intro row
+  induction row with
+  | nil => intro i st; rfl
+  | cons l rest ih =>
+    intro i st
+    simp only [connGoW, connGo, ih, asU32]
+    split
+    · rfl
+    · cases add l.total (conn l.node.r n.l) with
+      | none => rfl
+      | some x =>
+        cases add x n.c with
+        | none => rfl
+        | some nc => rfl
+
+theorem row_index_u16_wraps_counterexample :
+    let row : List Entry := [⟨⟨0, 1, 0, 0, 0⟩, 50, 0, 0⟩, ⟨⟨0, 1, 0, 0, 0⟩, 40, 0, 0⟩, ⟨⟨0, 1, 0, 0, 0⟩, 30, 0, 0⟩,
+      ⟨⟨0, 1, 0, 0, 0⟩, 20, 0, 0⟩, ⟨⟨0, 1, 0, 0, 0⟩, 10, 0, 0⟩]
+    let n : Vit.Node := ⟨1, 2, 0, 0, 0⟩
+    -- width 4 ("u16"): minimum 10 stored with index 0 - the entry of total 50
+    connGoW 4 addI32 I32_MAX (fun _ _ => 0) n row 0 (I32_MAX, 65535, 3) = some (10, 1, 0) ∧
+    (row[0]?.map Entry.total) = some 50 ∧
+    -- the model of the tree (u32): index 4 - the entry whose total is the stored minimum
+    connGo addI32 I32_MAX (fun _ _ => 0) n row 0 (I32_MAX, 65535, idxNone) = some (10, 1, 4) ∧
+    (row[4]?.map Entry.total) = some 10 := by
+  decide
+
+open Partition in
+/-- **`tokenize_total_bundled` with `hrowsz` DISCHARGED for the `u32` row index**: the only thing left of it is the
+text-independent, decidable fact `rowCap ≤ 65537` about the loaded configuration (number of lexicon rows + twice what the
+configured providers can return at one position); `hbound` (D7) already keeps the text at or below 32767 characters. -/
+theorem tokenize_total_bundled_u32 (lv : LenV) (orig : List Nat) (horig : BoOf orig 0)
+    (plugins : List (List Nat → Outcome (List (Edit Nat)))) (rv : Variant) (bowFix : Bool)
+    (rs : List CharCat.CatRange) (b : Bundled) (bs : List Bundled) (lex : List Word) (conn : Nat → Nat → Int)
+    (cat : List Nat) (P : List Char → Rewrite.POut) (pls : List Rewrite.Plugin)
+    (info : EditM.NodeRange → Rewrite.Node) (units : Rewrite.Node → List Nat)
+    (hinfo : ∀ n, rng (info n) = n)
+    (hplug : ∀ p ∈ plugins, PluginOk orig p)
+    (hplugnp : ∀ p ∈ plugins, ∀ t, NoPanic (p t))
+    (hutf : ∀ l0 l, startBuild orig = some l0 → rewriteInput lv plugins l0 = .ok l →
+      ∃ chars, Wire.utf8Decode (textOf l) = some chars ∧ chars.length = nchars (textOf l))
+    (hlexcost : ∀ w ∈ lex, I16 w.c)
+    (hdefs : ∀ q ∈ b :: bs, ∀ d ∈ providerDefs q.prov, I16 d.c)
+    (hconn : I16Conn conn)
+    (hbound : ∀ chars, Reaches lv (bundledCfg plugins rv bowFix rs b bs lex conn cat P pls info units) orig chars →
+      chars.length ≤ 32767)
+    (hcap : rowCap ((b :: bs).map Bundled.prov) lex ≤ 65537)
+    (hidx : ∀ (tb2c tc2b : List Nat) (nc nb : Nat) path, PathOk tb2c tc2b nc nb path →
+      Rewrite.rewriteAll .fix cat P pls (path.map info) ≠ .panic) :
+    NoPanic (tokenize .d6fix lv (bundledCfg plugins rv bowFix rs b bs lex conn cat P pls info units) orig) := by
+  refine tokenize_total_bundled lv orig horig plugins rv bowFix rs b bs lex conn cat P pls info units hinfo hplug hplugnp
+    hutf hlexcost hdefs hconn hbound ?_ hidx
+  intro chars nodes hr h e
+  have hb : TotalIO.mkBufOf rv bowFix (CharCat.compile rs) chars = builtBuf rv bowFix (CharCat.compile rs) chars := by
+    unfold TotalIO.mkBufOf; rw [mkBufV_compile_total rv bowFix rs chars]
+  obtain ⟨hwf, _, hch⟩ := mkBufV_ok rv bowFix (CharCat.compile rs) chars _ (mkBufV_compile_total rv bowFix rs chars)
+  rw [hb] at h
+  exact rows_from_row_cap_u32 _ lex _ hwf (by rw [hch]; have := hbound chars hr; omega) hcap nodes h e
+
+/-- non-vacuity of `hcap` of `tokenize_total_bundled_u32`: Regex + Simple over a one-word lexicon have `rowCap` 5 -/
+example : rowCap ([Bundled.regex ⟨0, 0, 200, 0, [⟨[97], 0, none⟩], 8, false, false⟩, Bundled.simple ⟨0, 0, 100, 0⟩].map Bundled.prov)
+    [⟨[97], 0, 0, 5⟩] ≤ 65537 := by decide
 
 /-- non-vacuity of `hcap`: the `pipe` example configuration (Simple provider, one word) has `rowCap = 3`; on `ab` 3·2 ≤ 65535 -/
 example : rowCap [.simple ⟨0, 0, 100, 0⟩] [⟨[97], 0, 0, 5⟩] * ([97, 98] : List Nat).length ≤ 65535 := by decide
@@ -1822,7 +1919,7 @@ theorem tokenize_total_bundled_plugins (lv : LenV) (cfg : Cfg) (orig : List Nat)
     (hconn : I16Conn cfg.conn)
     (hbound : ∀ chars, Reaches lv cfg orig chars → chars.length ≤ 32767)
     (hrowsz : ∀ chars nodes, Reaches lv cfg orig chars → buildLattice cfg.providers cfg.lex (cfg.mkBuf chars) = .ok nodes →
-      ∀ e, (nodes.map toVit).countP (fun n => n.e == e) ≤ 65535)
+      ∀ e, (nodes.map toVit).countP (fun n => n.e == e) ≤ 4294967295)
     (hrew : ∀ path, NoPanic (cfg.rewrite path))
     (hkeep : ∀ (nb : Nat) path path', (∀ q ∈ path, q.eb ≤ nb) → cfg.rewrite path = .ok path' →
       ∀ p ∈ path', p.1.eb ≤ nb) :
